@@ -112,6 +112,16 @@ def distinguishing_word(g1: RefGrammar, g2: RefGrammar):
                     return w, ("first_only" if ga is g1 else "second_only")
             except Exception:
                 continue
+    # long runs of one token (bounds near the process-wide repetition cap of 20 are out of reach of the small derivations above)
+    for tok in ("x", "a", "b"):
+        for k in (19, 20, 21, 22):
+            w = tok * k
+            try:
+                m1, m2 = WordMatcher(g1, w).member(), WordMatcher(g2, w).member()
+            except Exception:
+                continue
+            if m1 != m2:
+                return w, ("first_only" if m1 else "second_only")
     return None, None
 
 
@@ -130,6 +140,11 @@ def grammar_items(tier: str) -> list:
                 bodies.append(b)
     for e in bodies:
         out.append((RefGrammar({"<start>": e, "<x>": Alt((Lit("x"), Lit("y")))}), "text"))
+    # bounds at and around the process-wide repetition cap (20): an open end must stay open in print
+    for lo in (19, 20, 21):
+        out.append((RefGrammar({"<start>": Rep(NT("<x>"), lo, None), "<x>": Alt((Lit("x"), Lit("y")))}), "text"))
+        out.append((RefGrammar({"<start>": Seq((Rep(Lit("a"), lo, None), Lit("b"))), "<x>": Lit("x")}), "text"))
+    out.append((RefGrammar({"<start>": Rep(NT("<x>"), 20, 20), "<x>": Alt((Lit("x"), Lit("y")))}), "text"))
     for e in families.exprs(bin_atoms(), 1 if tier == "quick" else 2, unary=[unary[0], unary[1], unary[2], unary[3], unary[5]], full_binary_depth=1):
         out.append((RefGrammar({"<start>": e, "<x>": Alt((Lit(b"\x01"), Lit(b"\x02")))}, binary=True), "binary"))
     # grouping frames of operator depth 3: postfix operator over a concatenation / alternative whose first, middle
